@@ -296,8 +296,10 @@ func c17sizes(c *Check, rng *rand.Rand, limit int) {
 		s := cl.Snapshot()
 		fwd := false
 		for _, r := range env.Cl.Log()[before:] {
-			if strings.HasPrefix(FirstKey(r), tok) {
-				fwd = true
+			for _, a := range r.Args[1:] {
+				if strings.HasPrefix(string(a), tok) {
+					fwd = true
+				}
 			}
 		}
 		c.Eval(1)
@@ -325,6 +327,41 @@ func c17sizes(c *Check, rng *rand.Rand, limit int) {
 			continue
 		}
 		one(raw, tok, d <= 0, fmt.Sprintf("request-alone/limit%+d", d))
+	}
+	// split requests: the request's own size is over the limit although every
+	// per-slot fragment is below it (and the other way round for limit-1 / limit)
+	for _, kind := range []string{"mget", "del", "mset"} {
+		for _, d := range []int{-1, 0, 1, 7} {
+			tok := newToken("s")
+			target := eff + d
+			var args []string
+			build := func(pad int) []byte {
+				args = []string{kind}
+				for i := 0; i < 3; i++ {
+					k := Key(100+i*5000, tok+"."+itoa(i))
+					if i == 0 {
+						k += strings.Repeat("k", pad)
+					}
+					args = append(args, k)
+					if kind == "mset" {
+						args = append(args, "v")
+					}
+				}
+				return Req(args...)
+			}
+			base := len(build(0))
+			if target < base {
+				continue
+			}
+			raw := build(target - base)
+			for adj := 0; len(raw) != target && adj < 4; adj++ { // the length field may grow by a digit
+				raw = build(target - base - (len(raw) - target))
+			}
+			if len(raw) != target {
+				continue
+			}
+			one(raw, "{"+SlotTag(100)+"}"+tok, d <= 0, fmt.Sprintf("split-%s/limit%+d", kind, d))
+		}
 	}
 	// pipelines whose total exceeds the limit while every member is below it
 	for k := 0; k < c.Pick(6, 40); k++ {
